@@ -18,4 +18,3 @@ MANIFEST = {
             "level; exactly-once is checked on the real output of every scenario. Theorems quantify over all histories; the correspondence samples schedules.",
     "technique": "Lean 4 proof over a history monitor with history correspondence against kgo x kfake in synctest bubbles",
 }
-PENDING = True
